@@ -174,7 +174,9 @@ def wireCheck (bp : Blueprint) (circ : Circuit) (intended0 : Array (List Nat)) (
       let onG := (circ.prodG.getD i []).contains p
       if !onR && !onG then none else
       let seen (colour : Nat) : Bool := ((k.reads colour).inter (emits p)).isSome
-      if (onR && seen 1) || (onG && seen 2) then none else some (i, p)))
+      -- F18 is a *selection* disagreement: the sink does read the producer's signal, on the other colour only. A sink
+      -- that reads none of it on either colour (e.g. an entity whose condition was dropped) is not that defect.
+      if (onR && seen 1) || (onG && seen 2) then none else if seen 1 || seen 2 then some (i, p) else none))
   -- a producer planned for a wildcard operand must be visible on a colour that operand reads
   -- the selection of the wildcard *input* operand (an `each` operand of an arithmetic combinator, the wildcard left
   -- side of a decider row); for a gate that only copies (`everything` output) the selection of that output
